@@ -55,6 +55,7 @@ pub fn exec_array(scn: &Scenario, prop: Prop) -> RunResult {
         ElemTy::F32 => exec_nan::<f32>(scn, prop),
         ElemTy::OptI32 => exec_nan::<Option<i32>>(scn, prop),
         ElemTy::OptU8 => exec_nan::<Option<u8>>(scn, prop),
+        ElemTy::Keyed => exec_ord::<Keyed>(scn, prop),
     }
 }
 
